@@ -48,6 +48,7 @@ pub async fn run_case(addr: SocketAddr, certs: &Certs, seed: u64, i: u64, kind: 
     let bk = if kind == "replier_exhaust" { 0 } else { r.below(3) };
     let topic = format!("/c12ns{}/t{:03}", seed % 100_000, i);
     let _ = writeln!(out, "case c12 {} {} kind={} attempts={} outages={} step_ms={} backoff={}", seed, i, kind, attempts, outages, step_ms, bk);
+    crate::util::set_case_header(&format!("case c12 {} {} kind={} attempts={} outages={} step_ms={} backoff={}", seed, i, kind, attempts, outages, step_ms, bk));
     // A: the client whose connection is cut; B: the stable peer
     let a = match connect_client(addr, certs, backoff(bk, attempts, step_ms)).await {
         Ok(c) => c,
